@@ -19,7 +19,15 @@ is decided geometrically (distance of the curve's points to the exact ring), nev
 the library's ordering.
 
 Keys:  route=<direct|transform|fresh|dxf|svg|dict|path3d> input=<lines|arcs|mixed>
-       [tf=<class> via=<method> pre=<none|some|all>] read=<value> sym=<symptom>
+       [tf=<class> via=<method> pre=<none|some|all> [factor=<positive|negative>[_vector]]]
+       [size=below_tol_merge] [arcs=cross_below_tol_zero] read=<value> sym=<symptom>
+
+tf classes: identity, near_identity, rigid, similarity (0.5 ... 1e3), mirror_axis, mirror_rot and
+similarity_tiny (change of units about the origin, 1e-6 ... 1e-9, always the last step).  The two
+geometry tags say on which side of the library's absolute constants the transformed drawing is
+(geometry_class); for arcs below TOL_ZERO every Arc entity is also observed on its own
+(read=arc_discrete) and, when that root symptom fires, the reads computed from the polygonised arcs are
+counted as its consequences instead of being reported one by one.
 """
 
 from __future__ import annotations
@@ -40,9 +48,12 @@ RULE = (
     "rings (rect, convex, star, rectilinear, circle as 2-4 arcs or closed arc, line+arc bullet; depth<=3) "
     "with integer vertices; presentation = random cut of every ring into polylines/arcs with duplicated "
     "end-point rows, permuted entity and vertex order, random direction and ring start; history = 0-2 "
-    "rigid/similarity/mirror transforms applied through apply_transform/apply_scale/apply_translation/"
-    "rezero/vertex assignment after reading none/some/all cached values, optionally a dxf/svg/dict round "
-    "trip or a 3D conversion. distinct = distinct (entity lists, vertex bytes, history); non-trivial = "
+    "rigid/similarity/mirror transforms applied through apply_transform/apply_scale (scalar or (2,) factor, "
+    "positive or negative)/apply_translation/rezero/vertex assignment after reading none/some/all cached "
+    "values (the totals area/length among them half of the time), the last one possibly a change of units "
+    "about the origin (factor 1e-6..1e-9: drawings smaller than tol.merge, arcs with control triangles "
+    "below TOL_ZERO), optionally a dxf/svg/dict round trip (dxf also after a change of units) or a 3D "
+    "conversion. distinct = distinct (entity lists, vertex bytes, history); non-trivial = "
     "more entities than rings or nested rings or a non-identity history."
 )
 ANCHORS = [
@@ -79,7 +90,11 @@ ASSUMPTIONS = [
     "areas involving arcs are compared at 2e-3 of the circular-segment area, line-only drawings at 1e-9",
     "Path.merge_vertices merges at tol.merge * scale (<= 0.01 grid here); distinct generated points "
     "are >= 0.9 units apart and duplicated rows are bit-identical",
-    "transforms within 1e-8 of identity may be skipped (documented shortcut in apply_transform)",
+    "a transform is expected to be applied as passed, also within 1e-8 of the identity (only the exact "
+    "identity is a no-op since 7e187dd)",
+    "float64 arithmetic is scale free: a similarity about the origin with factor 1e-6..1e-9 leaves every "
+    "relative tolerance above valid; DXF stores 12 significant digits (judged at any size while coordinates "
+    "are no larger relative to the drawing than generated), SVG 13 decimals (not judged for small drawings)",
 ]
 EXHAUSTIVE = {"quick": False, "thorough": False}
 
@@ -90,6 +105,17 @@ READS = [
     "kdtree", "scale",
 ]
 TF_CLASSES = {"identity", "near_identity", "rigid", "similarity", "mirror_axis", "mirror_rot"}
+# change of units about the origin (metres <- micrometres ...): a similarity like any other, float64
+# is scale free, so every relative tolerance of the monitor stays what it is; what is NOT scale free
+# are the library's absolute constants (tol.merge = 1e-5 on lengths, TOL_ZERO = 1e-13 on products)
+TINY_SCALES = (1e-6, 1e-7, 1e-8, 1e-9)
+TOL_MERGE = 1e-5  # trimesh.constants.tol_path.merge
+TOL_ZERO = 1e-13  # trimesh.util.TOL_ZERO (unitize's "this vector is zero" threshold)
+# reads that are computed from the polygonised arcs (everything except entity topology and length)
+ARC_DOWNSTREAM = {
+    "discrete", "polygons_closed", "polygons_full", "area", "bounds", "extents", "centroid", "root",
+    "enclosure_directed", "enclosure", "enclosure_shell", "body_count", "path_valid", "n_root", "n_edges",
+}
 SEG_ANGLE = 0.08  # res_path.seg_angle (documented discretisation resolution)
 # discretize_arc uses ceil(span / 0.08) POINTS (>= 4), i.e. one segment fewer: segments span up to
 # 0.08 * k / (k - 1) <= 0.107 rad; inscribed-polygon deficiency 1 - sin(t)/t <= t^2/6 = 1.9e-3 of the
@@ -159,11 +185,83 @@ def _dense_points(D, n=720):
     return np.array(pts, dtype=np.float64)
 
 
+def geometry_class(D, pres, M):
+    """
+    Structural class of the geometry `pres` mapped through M with respect to the library's ABSOLUTE
+    constants (part of the key: a defect tied to one of them gets a key of its own, and ordinary
+    drawings stay strictly judged):
+      size=below_tol_merge       the whole drawing is smaller than tol.merge = 1e-5 (absolute length)
+      arcs=cross_below_tol_zero  some three point arc has |(p1 - p0) x (p2 - p0)| (twice the area of its
+                                 control triangle, ~ radius^2) below TOL_ZERO = 1e-13
+    -> (key fragment, set of tags)
+    """
+    det, s = _mat_props(np.asarray(M, dtype=np.float64))
+    tags = []
+    b0 = D.bounds()
+    if float(np.linalg.norm(b0[1] - b0[0])) * s < TOL_MERGE:
+        tags.append("size=below_tol_merge")
+    V = pres.vertices
+    cmin = np.inf
+    for typ, idx, closed in pres.entities:
+        if typ == "Arc":
+            p0, p1, p2 = V[idx[0]], V[idx[1]], V[idx[2]]
+            a, b = p1 - p0, p2 - p0
+            cmin = min(cmin, abs(float(a[0] * b[1] - a[1] * b[0])))
+    if cmin * abs(det) < TOL_ZERO:
+        tags.append("arcs=cross_below_tol_zero")
+    return " ".join(tags), set(tags)
+
+
+def observe_arc_entities(ctx, path, pres, M):
+    """
+    Entity-level observation (closer to the mechanism than `discrete`): every Arc entity of `path`
+    is discretised on its own and its points must lie on the generating ring.  Returns True when
+    some arc is off its circle (reported once, under read=arc_discrete).
+    """
+    D = ctx.D
+    M = np.asarray(M, dtype=np.float64)
+    Minv = np.linalg.inv(M)
+    b0 = D.bounds()
+    L0 = float(np.linalg.norm(b0[1] - b0[0])) + float(np.abs(b0).max())
+    eps0 = 1e-8 * L0
+    ents = list(path.entities)
+    if len(ents) != len(pres.entities):
+        return False
+    try:
+        scale = float(path.scale)
+        V = np.asarray(path.vertices)
+    except BaseException:  # noqa
+        return False
+    worst, where, n = 0.0, None, 0
+    for i, e in enumerate(ents):
+        if type(e).__name__ != "Arc":
+            continue
+        try:
+            d = np.asarray(e.discrete(V, scale=scale), dtype=np.float64)
+        except BaseException as exc:  # noqa
+            ctx.bad("arc_discrete", "exception:" + type(exc).__name__, "Arc.discrete raised", entity=i, error=repr(exc)[:200])
+            return True
+        n += 1
+        g = d.reshape((-1, 2)) @ Minv[:2, :2].T + Minv[:2, 2]
+        dist = float(gp.ring_distance(D.rings[pres.ent_ring[i]], g).max())
+        if dist > worst:
+            worst, where = dist, i
+    ctx.run.count("arc_entities_observed", n)
+    if worst > eps0:
+        ctx.bad("arc_discrete", "off_circle", "points of a discretised Arc entity do not lie on its circle",
+                entity=where, distance_in_drawing_units=worst, tolerance=eps0)
+        return True
+    return False
+
+
 class Ctx:
     """Where a judgement happens: key prefix + witness."""
 
-    def __init__(self, run, D, spec, route, extra="", inherited=()):
+    def __init__(self, run, D, spec, route, extra="", inherited=(), masked=()):
         self.run, self.D, self.spec, self.route = run, D, spec, route
+        # reads downstream of a root symptom that was observed (and reported) at entity level for
+        # this very geometry: consequences of it, counted but not reported again read by read
+        self.masked = set(masked)
         self.prefix = "route=%s input=%s%s" % (route, D.input_class, (" " + extra) if extra else "")
         self.fired = 0
         self.symptoms = set()
@@ -175,6 +273,9 @@ class Ctx:
         self.symptoms.add((read, sym))
         if (read, sym) in self.inherited:
             self.run.count("symptom_inherited_from_source")
+            return
+        if read in self.masked:
+            self.run.count("symptom_downstream_of_arc_discrete")
             return
         self.fired += 1
         case = dict(self.spec)
@@ -488,7 +589,12 @@ def _apply(path, step, rnd):
     if via == "apply_transform":
         path.apply_transform(M)
     elif via == "apply_scale":
-        path.apply_scale(float(step["scale"]))
+        # documented argument: float or (2,) float; a negative uniform factor is a half turn
+        # combined with a change of size (determinant factor^2 > 0: a similarity)
+        if step.get("scale_form") == "vector":
+            path.apply_scale(np.array([float(step["scale"])] * 2))
+        else:
+            path.apply_scale(float(step["scale"]))
     elif via == "apply_translation":
         path.apply_translation(np.array(step["offset"], dtype=np.float64))
     elif via == "rezero":
@@ -535,6 +641,7 @@ def execute(run, spec):
     last_symptoms = set(ctx.symptoms)
     # ---- transforms
     Macc = np.eye(3)
+    gkey, gtags, masked = "", set(), set()
     for si, step in enumerate(steps):
         pre = step.get("pre", [])
         pre_class = "none" if not pre else ("all" if len(pre) >= len(READS) else "some")
@@ -545,7 +652,11 @@ def execute(run, spec):
             observe(path, pre, None)
         tfc = step["tf"].split(":")[0]
         via = step["via"]
-        ctx = Ctx(run, D, spec, "transform", "tf=%s via=%s pre=%s" % (tfc, via, pre_class))
+        extra = "tf=%s via=%s pre=%s" % (tfc, via, pre_class)
+        if via == "apply_scale":
+            extra += " factor=%s%s" % ("negative" if float(step["scale"]) < 0 else "positive",
+                                       "_vector" if step.get("scale_form") == "vector" else "")
+        ctx = Ctx(run, D, spec, "transform", extra)
         try:
             M = _apply(path, step, rnd)
         except BaseException as e:  # noqa
@@ -564,17 +675,31 @@ def execute(run, spec):
                 ctx.bad("rezero", "wrong_matrix", "rezero did not translate the lower-left corner to the origin",
                         got=M, want=want)
                 break
-        elif np.abs(M - np.eye(3)).max() < 1e-8 and via == "apply_transform":
-            M = np.eye(3)  # documented identity shortcut
+        # (matrices within 1e-8 of the identity used to be skipped by apply_transform; since 7e187dd
+        # only the exact identity is, so the expected matrix is the one that was passed - at ordinary
+        # sizes the two expectations differ by less than the positional tolerance anyway)
         Macc = M @ Macc
         det, s = _mat_props(Macc)
+        gkey, gtags = geometry_class(D, pres, Macc)
+        if gkey:
+            ctx.prefix += " " + gkey
+            run.state("geometry_class", gkey)
+        masked = set()
         # a freshly built path with the same geometry (new entities, empty cache) is judged first:
         # what it shows too is not caused by the history and is reported under route=direct
         fsum = None
         try:
             fresh = pres.build(matrix=Macc, process=process)
+            fctx = Ctx(run, D, dict(spec, fresh_with_matrix=Macc.tolist()), "direct", gkey)
+            # (its key carries the arc class only: the overall size plays no part in it)
+            actx = Ctx(run, D, fctx.spec, "direct", "arcs=cross_below_tol_zero")
+            if "arcs=cross_below_tol_zero" in gtags and observe_arc_entities(actx, fresh, pres, Macc):
+                # the root symptom is on record: what is computed from the polygonised arcs is a
+                # consequence (for this geometry only - arcs above the threshold stay fully judged)
+                masked = set(ARC_DOWNSTREAM)
+                fctx.masked = ctx.masked = masked
+                run.count("geometries_with_arc_off_circle")
             fobs = observe(fresh, READS, rnd)
-            fctx = Ctx(run, D, dict(spec, fresh_with_matrix=Macc.tolist()), "direct")
             judge(fctx, fobs, Macc, pres)
             ctx.inherited = set(fctx.symptoms)
             if not fctx.symptoms - {("length", "arc_length_counted_twice")}:
@@ -596,13 +721,24 @@ def execute(run, spec):
         # exporters switch notation) the stored precision, not the code, decides the relative
         # error.  The statement promises "the precision the format stores": judge the text round
         # trips for drawings of ordinary size only (the dict route is exact and always judged).
+        # DXF writes 12 SIGNIFICANT digits (%.12g) - a relative precision: a change of units about
+        # the origin leaves the stored relative precision where it was, and the DXF form is judged
+        # whenever the coordinates are no larger, relative to the drawing, than in the generated
+        # drawing itself.  SVG writes 13 DECIMALS (absolute): small drawings lose digits, skipped.
         det0, s0 = _mat_props(Macc)
         if not (0.05 <= s0 <= 200.0):
-            run.skip("text round trip at extreme scale: format precision dominates")
-            final = None
+            P0 = _dense_points(D, n=64)
+            far0 = float(np.abs(P0).max())
+            far1 = float(np.abs(P0 @ Macc[:2, :2].T + Macc[:2, 2]).max())
+            b0 = D.bounds()
+            if final == "dxf" and far1 <= 1.5 * s0 * max(far0, float(np.linalg.norm(b0[1] - b0[0]))):
+                run.count("dxf_roundtrip_after_change_of_units")
+            else:
+                run.skip("text round trip at extreme scale: format precision dominates")
+                final = None
     if final in ("dxf", "svg", "dict"):
         det, s = _mat_props(Macc)
-        ctx = Ctx(run, D, spec, final, inherited=last_symptoms)
+        ctx = Ctx(run, D, spec, final, gkey, inherited=last_symptoms, masked=masked)
         loaded = None
         try:
             if final == "dict":
@@ -630,11 +766,11 @@ def execute(run, spec):
                 lobs = observe(loaded, READS, rnd)
                 judge(ctx, lobs, Macc, None)
                 ls = summary(lobs)
-                compare_fresh(Ctx(run, D, spec, final, "check=vs_source", inherited=last_symptoms), ls, summary(observe(path, ["area", "length", "body_count", "is_closed", "paths", "root", "polygons_full", "enclosure_directed"])), D, s)
+                compare_fresh(Ctx(run, D, spec, final, ("check=vs_source " + gkey).strip(), inherited=last_symptoms, masked=masked), ls, summary(observe(path, ["area", "length", "body_count", "is_closed", "paths", "root", "polygons_full", "enclosure_directed"])), D, s)
         run.case("roundtrip:%s:%s" % (final, D.input_class), sig[0], sig[1], np.asarray(Macc), nontrivial=True)
         run.count("roundtrip_" + final)
     elif final == "path3d":
-        ctx = Ctx(run, D, spec, "path3d", inherited=last_symptoms)
+        ctx = Ctx(run, D, spec, "path3d", gkey, inherited=last_symptoms, masked=masked)
         det, s = _mat_props(Macc)
         try:
             T = np.array(spec.get("to3d", np.eye(4).tolist()), dtype=np.float64)
@@ -674,6 +810,30 @@ def execute(run, spec):
 # workload
 
 
+def _pre_reads(rnd):
+    """What is read (= cached) before a step: nothing / everything / a few values - half of the
+    time with one of the statement's totals among them."""
+    k = rnd.random()
+    if k < 0.25:
+        return []
+    if k < 0.5:
+        return list(READS)
+    pre = rnd.sample(READS, rnd.randint(1, 5))
+    if rnd.random() < 0.5:
+        t = rnd.choice(["area", "length"])
+        if t not in pre:
+            pre.append(t)
+    return pre
+
+
+def _scale_step(step, factor, rnd):
+    """Express a uniform scale about the origin through Path2D.apply_scale (scalar or (2,) form)."""
+    step.update(via="apply_scale", scale=float(factor), M=np.diag([factor, factor, 1.0]).tolist())
+    if rnd.random() < 0.2:
+        step["scale_form"] = "vector"
+    return step
+
+
 def _random_step(run, rnd, mats):
     # choose the class first (near-identity matrices outnumber the others in G-matrix)
     want = rnd.choices(["identity", "near_identity", "rigid", "similarity", "mirror_axis", "mirror_rot"],
@@ -683,9 +843,11 @@ def _random_step(run, rnd, mats):
     tfc = tag.split(":")[0]
     step = {"tf": tag, "M": M.tolist(), "via": "apply_transform"}
     r = rnd.random()
-    if tfc == "similarity" and r < 0.25:
+    if tfc == "similarity" and r < 0.35:
+        # apply_scale takes any real factor: a negative one is a half turn about the origin combined
+        # with the change of size (still a similarity: lengths grow by |factor|, areas by factor^2)
         sc = float(tag.split(":")[1])
-        step.update(via="apply_scale", scale=sc, M=np.diag([sc, sc, 1.0]).tolist())
+        _scale_step(step, -sc if rnd.random() < 0.5 else sc, rnd)
     elif tfc == "rigid" and r < 0.2:
         off = [float(M[0, 2]), float(M[1, 2])]
         T = np.eye(3)
@@ -693,15 +855,33 @@ def _random_step(run, rnd, mats):
         step.update(via="apply_translation", offset=off, M=T.tolist())
     elif tfc == "rigid" and r < 0.3:
         step.update(via="rezero", M=np.eye(3).tolist())
+    elif tfc == "rigid" and r < 0.4:
+        # the half turn about the origin, spelled as a scale by -1
+        _scale_step(step, -1.0, rnd)
     elif r > 0.85 and tfc not in ("identity", "near_identity"):
         step.update(via="vertices_assign")
-    k = rnd.random()
-    if k < 0.25:
-        step["pre"] = []
-    elif k < 0.5:
-        step["pre"] = list(READS)
+    step["pre"] = _pre_reads(rnd)
+    return step
+
+
+def _tiny_step(run, rnd):
+    """
+    A change of units about the origin: similarity with factor 1e-6 ... 1e-9 (a rotation and an offset
+    of a few drawing units are scaled along, so coordinates stay as large relative to the drawing as
+    they were: float64 conditioning is unchanged, only the absolute size is).
+    """
+    sc = rnd.choice(TINY_SCALES)
+    tag = "similarity_tiny:%g" % sc
+    r = rnd.random()
+    if r < 0.35:
+        step = _scale_step({"tf": tag}, -sc if rnd.random() < 0.3 else sc, rnd)
     else:
-        step["pre"] = rnd.sample(READS, rnd.randint(1, 5))
+        a = rnd.uniform(-math.pi, math.pi)
+        M = np.eye(3)
+        M[:2, :2] = sc * np.array([[math.cos(a), -math.sin(a)], [math.sin(a), math.cos(a)]])
+        M[:2, 2] = sc * np.array([rnd.uniform(-5, 5), rnd.uniform(-5, 5)])
+        step = {"tf": tag, "M": M.tolist(), "via": "vertices_assign" if r > 0.85 else "apply_transform"}
+    step["pre"] = _pre_reads(rnd)
     return step
 
 
@@ -752,8 +932,19 @@ def workload(run):
                     steps[-1] = _random_step(run, rnd, mats)
                 else:
                     steps = steps[:1]
+                if rnd.random() < 0.22:
+                    # the history ends with a change of units (always the LAST step: a later offset of
+                    # a few units would put a drawing of size 1e-6 far from the origin)
+                    first = steps[0]["tf"] if len(steps) == 2 else ""
+                    if first.startswith("similarity:") and not (0.4 <= float(first.split(":")[1]) <= 2.5):
+                        steps = []
+                    steps = steps[:-1] + [_tiny_step(run, rnd)]
                 spec["steps"] = steps
             r2 = rnd.random()
+            if spec.get("steps") and spec["steps"][-1]["tf"].startswith("similarity_tiny"):
+                # SVG stores absolute decimals (skipped at this size) and the 3D detour is not a form
+                # of the statement: DXF or dict instead
+                r2 = 0.0 if r2 < 0.2 else (0.25 if r2 < 0.34 else 1.0)
             if r2 < 0.12:
                 spec["final"] = "dxf"
             elif r2 < 0.24:
